@@ -87,6 +87,7 @@ theorem tie_freeBlocker : subseq ["recv:tomb.Dying", "call:acceptTomb.Killf", "c
     (seqOf "proxy.go:Proxy.freeBlocker") = true := by decide
 
 theorem tie_server : subseq ["defer:acceptTomb.Done", "go:proxy.freeBlocker", "loop", "call:listener.Accept", "recv:acceptTomb.Dying", "return",
+      "call:time.Sleep", "continue",   -- a failed Accept that is not the shutdown: wait, accept again
       "call:net.Dial", "call:client.Close", "continue", "call:connections.Lock",
       "set:connections.list[name+\"upstream\"]", "set:connections.list[name+\"downstream\"]", "call:connections.Unlock",
       "call:Toxics.StartLink", "call:Toxics.StartLink"]
